@@ -28,6 +28,12 @@ HINTS = {
           "that straddles a 256 / 65536 / word boundary, the last element of a sequence, an empty sequence, a length that equals a limit minus the header; "
           "(c) ORDER: the result depends on the order in which variables, members, terminals, devices, datagrams or processes are declared, sorted or "
           "iterated - ties in a sort key, reverse or interleaved order, two items at the same position, something declared after first use."),
+    "J": ("This time prefer one of: (a) POSITION IN THE CONTROL FLOW: the operation is right at top level but wrong inside a nested with-block or an "
+          "Else branch, right after an exit(), as the very first or very last statement, inside a subprogram or a second instance of it, in a "
+          "finally / clean-up path, or when two of them directly follow each other; (b) RESOURCE PRESSURE: wrong only when registers, stack bytes, "
+          "datagram slots, map entries, file descriptors or queue entries run short or are all in use - long expressions, many live variables, a full "
+          "table, the last free slot; (c) REPETITION: wrong only after the same call has been repeated many times or an internal counter, index or "
+          "identifier has wrapped around or been reused (8-bit, 16-bit or 32-bit counters, the cycle 1..7, packet indices, list growth)."),
 }
 pid, rnd = sys.argv[1], sys.argv[2]
 base = subprocess.run([sys.executable, "/verif/harness/agent_prompt.py", pid], capture_output=True, text=True, check=True).stdout
